@@ -695,6 +695,9 @@ func (e *Env) ghostVar(name, kind string) Value {
 	case "seq":
 		e.declare(n, SArr)
 		return Value{K: VStr, Arr: Var(n, SArr), Off: IntLit(0), Len: IntLit(0)}
+	case "u":
+		e.declare(n, SU)
+		return uV(Var(n, SU))
 	}
 	e.declare(n, SInt)
 	return intV(Var(n, SInt))
